@@ -279,7 +279,19 @@ func (g *Generator) generateFlattenUnmarshalJSON(gf *protogen.GeneratedFile, ctx
 	gf.P("return err")
 	gf.P("}")
 	gf.P()
-	gf.P("return protojson.Unmarshal(remaining, x)")
+	gf.P("// protojson.Unmarshal resets the message, so the flattened children are attached afterwards")
+	gf.P("if err := protojson.Unmarshal(remaining, x); err != nil {")
+	gf.P("return err")
+	gf.P("}")
+	for _, info := range ctx.FlattenInfos {
+		if info.Field.Message == nil {
+			continue
+		}
+		gf.P("if flat", info.Field.GoName, " != nil {")
+		gf.P("x.", info.Field.GoName, " = flat", info.Field.GoName)
+		gf.P("}")
+	}
+	gf.P("return nil")
 	gf.P("}")
 	gf.P()
 }
@@ -299,6 +311,7 @@ func (g *Generator) generateFlattenFieldUnmarshal(gf *protogen.GeneratedFile, in
 	childTypeName := childMsg.GoIdent.GoName
 
 	gf.P("// Extract flattened child fields for: ", field.Desc.Name())
+	gf.P("var flat", goName, " *", childTypeName)
 	gf.P("{")
 	gf.P("childRaw := make(map[string]json.RawMessage)")
 
@@ -318,9 +331,9 @@ func (g *Generator) generateFlattenFieldUnmarshal(gf *protogen.GeneratedFile, in
 	gf.P("if childErr != nil {")
 	gf.P("return childErr")
 	gf.P("}")
-	gf.P("x.", goName, " = &", childTypeName, "{}")
+	gf.P("flat", goName, " = &", childTypeName, "{}")
 	gf.P("// Use json.Unmarshal to invoke child's UnmarshalJSON (annotation composability)")
-	gf.P("if childErr = json.Unmarshal(childData, x.", goName, "); childErr != nil {")
+	gf.P("if childErr = json.Unmarshal(childData, flat", goName, "); childErr != nil {")
 	gf.P("return childErr")
 	gf.P("}")
 	gf.P("}")
